@@ -29,7 +29,12 @@ type Obligation struct {
 	Status  string
 	Skolems []*smt.Term
 	LiveArrs []*smt.Term // versioned arrays occurring in the state at the obligation
-	Inputs  []*smt.Term
+	Inputs  []NamedTerm // replay inputs: named terms over the entry state
+}
+
+type NamedTerm struct {
+	Name string
+	T    *smt.Term
 }
 
 type deferred struct {
@@ -69,6 +74,7 @@ type VerifyCtx struct {
 	nOblig  map[string]int
 	Returns int
 	Paths   int
+	Inputs  []NamedTerm
 }
 
 type Frame struct {
